@@ -32,13 +32,6 @@ NOT_APPLICABLE = {
     'C02': 'schedule-only property of three unsynchronised steps (id assignment, commit, broadcast) in concurrent writers; neither '
            'Verus (without rewriting the code around its permission types) nor Kani (no threads) can express the quantifier; the '
            'one sequential piece (Excluded(last_id) bound) is decided under C01',
-    'C03': 'not built yet (planned: mechanism obligations on Store::read closures)',
-    'C06': 'not built yet (planned: key lemmas + option maps + handler stamping)',
-    'C10': 'not built yet (planned: hash provenance slices of api.rs)',
-    'C11': 'not built yet (planned: Store::read closures)',
-    'C13': 'not built yet (planned: api.rs slices)',
-    'C14': 'not built yet (planned: handler serve loop)',
-    'C15': 'not built yet (planned: handler stamping loop)',
     'C17': 'not built yet (planned: replay folds)',
     'C16': 'every decidable clause compares topics against format!() output (opaque to Verus, unaffordable in CBMC) and the rest '
            'is a spawn/subscribe race between tokio tasks',
@@ -67,11 +60,12 @@ prop('C01',
            'frame as given. Key lemmas L3/L5/L6 make the bounds exact for every pair of ids / adjacent contexts. For every input and '
            'store state; storage layouts inside fjall and concurrent writers are assumed / out of scope.',
      technique=TECH,
-     units=['verus:keys', 'verus:store_ops'],
+     units=['verus:keys', 'verus:store_ops', 'verus:read_ops'],
      obligations=['keys.ctx_key.*', 'keys.range_end.next_ctx', 'keys.iter_ctx.*', 'keys.iter_all.*',
                   'store.iter_frames.*', 'store.read_sync.*', 'store.get.*', 'store.append.fresh_id', 'store.append.frame_as_given',
                   'store.append.stored', 'store.insert_frame.three_entries', 'store.remove.three_tombstones',
-                  'store_ops.Store::iter_frames.body', 'store_ops.Store::get.body', 'store_ops.read_sync_filter.body'],
+                  'store_ops.Store::iter_frames.body', 'store_ops.Store::get.body', 'store_ops.read_sync_filter.body',
+                  'read.history.*', 'read_ops.read_history.body'],
      trusted=STORE_TRUST,
      explanation='Each clause of C01 that is decided by sequential code is a postcondition of the real function (extracted from '
                  '/repo at run time) discharged by Verus for all inputs; the order filter-then-take of read_sync and the history '
@@ -104,7 +98,7 @@ prop('C05',
            'write and delete exactly the three entries of a frame; lemmas L1-L6 make prefix and range scans exact for prefix-related '
            'topics and adjacent contexts.',
      technique=TECH,
-     units=['verus:keys', 'verus:store_ops'],
+     units=['verus:keys', 'verus:keys_max', 'verus:store_ops'],
      obligations=['keys.prefix.*', 'keys.from_frame.*', 'keys.id_from_key.*', 'keys.ctx_key.*', 'keys.range_end.*',
                   'keys.iter_ctx.*', 'keys.iter_all.*', 'keys.*.body', 'store.head.*', 'store.iter_frames.*',
                   'store.get.*', 'store.insert_frame.three_entries', 'store.insert_frame.nul_*', 'store.remove.three_tombstones',
@@ -117,15 +111,16 @@ prop('C05',
 
 prop('C07',
      level='proof',
+     thorough_units=[],
      claim='Unbounded Verus proofs on the real Store::append / remove / reload loop of Store::new: an append is Ok only into the zero '
            'context or a registered one (else Err with no stored entry, no registry change, no event), xs.context only in the zero '
            'context with its ttl forced to Forever and its id registered, remove of an xs.context frame unregisters it, and after '
            'open the registry is exactly the ids of the xs.context frames the zero-context read returns.',
      technique=TECH,
-     units=['verus:store_ops'],
+     units=['verus:store_ops', 'verus:api_ops'],
      obligations=['store.append.rejects_invalid', 'store.append.reject_no_trace', 'store.append.registers', 'store.append.frame_as_given',
                   'store.append.no_broadcast_on_err', 'store.remove.unregisters', 'store.new.*',
-                  'store_ops.Store::append.body', 'store_ops.new_reload_loop.body'],
+                  'store_ops.Store::append.body', 'store_ops.new_reload_loop.body', 'api.import.pre.P4_registers_context'],
      trusted=STORE_TRUST,
      explanation='Postconditions of the real functions over the ghost registry set.',
      not_decided='reopen after a crash (fjall recovery); import of registration frames bypasses the registry (C20 finding)')
@@ -181,8 +176,110 @@ prop('C20',
            'emits no broadcast / GC task; its preconditions for keeping the indexes in lock-step (P1-P4) are stated and the import '
            'call site is checked against them (known findings).',
      technique=TECH,
-     units=['verus:store_ops'],
-     obligations=['store.insert_frame.*', 'store_ops.Store::insert_frame.body'],
+     units=['verus:store_ops', 'verus:api_ops'],
+     obligations=['store.insert_frame.*', 'store_ops.Store::insert_frame.body', 'api.import.*', 'api_ops.import_parse_and_insert.body'],
      trusted=STORE_TRUST,
      explanation='insert_frame contract; import call-site slice when present.',
      not_decided='content import (cacache); order permutations beyond idempotence and id-keyed placement')
+
+READ_TRUST = ['extraction', 'sequential', 'scru128', 'channels', 'overflow']
+
+prop('C03',
+     level='other',
+     claim='Mechanism obligations only (Verus, unbounded, sequential): Store::read subscribes to the broadcast BEFORE it starts the '
+           'historical scan; the history thread delivers the non-expired scanned frames in order, then exactly one xs.threshold '
+           '(following, no limit), then signals done with the last scanned id and the count; the live task forwards exactly the '
+           'broadcast frames of the requested context with id > last scanned id, in arrival order; append stores (commit + sync) '
+           'before its single broadcast, ephemeral frames are broadcast only. That these mechanisms yield exactly-once under every '
+           'interleaving is NOT decided.',
+     technique=TECH,
+     units=['verus:read_ops', 'verus:store_ops'],
+     obligations=['read.prologue.*', 'read.history.*', 'read.live.post', 'read.live.forwards_exactly_wanted_in_order',
+                  'store.append.store_then_broadcast', 'store.append.ephemeral_not_stored', 'store.append.no_broadcast_on_err',
+                  'read_ops.read_history.body', 'read_ops.read_live.body', 'read_ops.Store::read.body'],
+     trusted=READ_TRUST + ['fjall'],
+     explanation='Each closure of Store::read is extracted, `.await` stripped, and verified as sequential code against contract '
+                 'stubs of the channels with a ghost event log; the spawn order of read() is verified with the closure bodies '
+                 'elided (they are verified separately).',
+     not_decided='interleavings of appends with subscribe/scan/hand-off (threads and tokio tasks); concurrent writers (C02)')
+
+prop('C06',
+     level='proof',
+     claim='Unbounded Verus proofs on the real code: the context arm of iter_frames scans exactly [ctx, ctx+1) (lemma L5: no key of '
+           'another context, adjacent ids included); head scans a prefix that starts with the context id; the live task drops frames '
+           'of other contexts; a handler always subscribes with its own context and every frame it emits is forced into its own '
+           'context; GET /head?follow subscribes in the requested context.',
+     technique=TECH,
+     units=['verus:keys', 'verus:store_ops', 'verus:read_ops', 'verus:handler_ops', 'verus:api_ops'],
+     obligations=['keys.iter_ctx.*', 'keys.range_end.next_ctx', 'keys.prefix.layout', 'keys.ctx_key.layout', 'store.iter_frames.*', 'store.head.*',
+                  'read.live.forwards_exactly_wanted_in_order', 'read.live.post', 'handler.options.own_context', 'handler.stamp.*',
+                  'api.head_follow.*', 'handler_ops.stamp_loop.body', 'api_ops.head_follow_options.body'],
+     trusted=STORE_TRUST + ['channels'],
+     explanation='Key-range lemmas plus contracts on every xs function that passes a context along.',
+     not_decided='.cat/.head inside scripts (nu Command impls pass their stored context through, by inspection only); generator output')
+
+prop('C10',
+     level='other',
+     claim='Narrow (Verus, unbounded, sequential): for POST /{topic} the hash in the appended frame is exactly the hash cacache returned '
+           'for committing exactly the request body, a hash is present iff at least one body byte was written, and the CAS commit '
+           'precedes the append; POST /cas rejects an empty body with 400 and otherwise commits exactly the body. Byte-exact '
+           'read-back and hash determinism are properties of cacache/ssri and are assumed.',
+     technique=TECH,
+     units=['verus:api_ops'],
+     obligations=['api.append.*', 'api.cas_post.*', 'api_ops.append_body_to_hash.body', 'api_ops.append_builds_frame.body', 'api_ops.cas_post_body_to_hash.body'],
+     trusted=['extraction', 'sequential', 'overflow'],
+     extra_assumptions=['cacache/ssri: content written and committed is read back byte for byte under the returned hash; the hash is a function of the bytes'],
+     explanation='Slices of api.rs against a ghost model of the request body, the CAS writer and the store calls.',
+     not_decided='nu .append / handler / command / generator output paths (nu types); racing followers; crashes')
+
+prop('C11',
+     level='other',
+     claim='Verus, unbounded, sequential: the history thread never delivers more than `limit` frames and stops without done only because '
+           'the limit was reached; the live task counts deliveries from the count handed over by history and stops at the limit - '
+           'including the hand-off case history == limit; tail starts no history thread; threshold/pulse markers are ephemeral frames '
+           'put only on this read\'s own channel; after the broadcast subscription reports a lag nothing further is forwarded.',
+     technique=TECH,
+     units=['verus:read_ops'],
+     obligations=['read.history.*', 'read.live.*', 'read.heartbeat.*', 'read.prologue.*', 'read_ops.*.body'],
+     trusted=READ_TRUST,
+     explanation='See C03; plus limit accounting across the history -> live hand-off as a composition obligation.',
+     not_decided='the heartbeat task keeps the stream open after the live task ended (cross-task); consumer-speed quantifier')
+
+prop('C13',
+     level='other',
+     claim='Narrow (Verus, sequential slices of api.rs): an xs-meta header that cannot be decoded is handled as a value (400), never by '
+           'a panicking unwrap; the CasGet arm evaluates to a response for every outcome of cas_reader; import answers 400 for '
+           'undecodable JSON and changes nothing; the frame appended by POST /{topic} carries exactly topic/context/hash/meta/ttl of '
+           'the request; head-follow uses the requested context.',
+     technique=TECH,
+     units=['verus:api_ops'],
+     obligations=['api_ops.meta_header_str.body', 'api.cas_get.*', 'api.import.bad_json_rejected', 'api.import.error_no_effect',
+                  'api.append.frame_from_request', 'api.append.error_no_append', 'api.head_follow.*', 'api.cas_post.empty_rejected'],
+     trusted=['extraction', 'sequential'],
+     explanation='Totality / faithfulness obligations on slices; the route table and response rendering are out of reach.',
+     not_decided='match_route, NDJSON/SSE rendering, request sequences (hyper/tokio/url are outside both verifiers)')
+
+prop('C14',
+     level='other',
+     claim='Narrow (Verus): a handler subscribes to its own context only, from the configured resume point (head / tail / after id), '
+           'following forever; the dispatch loop never hands a frame whose meta.handler_id is its own id to process_frame.',
+     technique=TECH,
+     units=['verus:handler_ops'],
+     obligations=['handler.options.*', 'handler.serve.*', 'handler_ops.Handler::configure_read_options.body', 'handler_ops.serve_loop.body'],
+     trusted=['extraction', 'sequential', 'scru128'],
+     extra_assumptions=['serde_json::Value accessors (get / as_str / as_object_mut) behave as a map / string model; Display of an id is injective'],
+     explanation='configure_read_options whole function; the serve loop with format!() results opaque and json! payloads elided.',
+     not_decided='(un)register skip/stop conditions (compare against format!() output); bursts (C02/C03); env persistence (nu)')
+
+prop('C15',
+     level='proof',
+     claim='Verus, unbounded: every frame the stamping loop of process_frame appends carries meta.handler_id = the handler id and '
+           'meta.frame_id = the triggering frame id (overriding script-provided values), is forced into the handler\'s context, keeps '
+           'topic/hash/ttl, and there is exactly one append per buffered frame, in buffer order (return frame last).',
+     technique=TECH,
+     units=['verus:handler_ops'],
+     obligations=['handler.stamp.*', 'handler_ops.stamp_loop.body'],
+     trusted=['extraction', 'sequential', 'scru128'],
+     extra_assumptions=['serde_json::Value / Map model (object = map, insert overwrites); buffered metas are absent or objects (nu Record)'],
+     explanation='The loop is extracted verbatim and verified with a loop invariant over the ghost list of appended frames.',
+     not_decided='return-frame topic (format!), evaluation failure path, script shapes, CAS content')
